@@ -8,16 +8,73 @@ Open Scope Z_scope.
 
 Inductive c05case :=
 | C05Step (c : ccase)
-| C05Free (ncalls : Z) (first_ids_sorted : list Z) (pairs : list (Z * Z)).   (* (request token, reply token) *)
+| C05Free (ncalls : Z) (first_ids_sorted : list Z) (pairs : list (Z * Z))   (* (request token, reply token) *)
+(* write faults while other calls are in flight (TestC05Fault): mode 0 = the faulty call's Write is held by the
+   transport and fails when its context ends, 1 = two such calls, 2 = the Write fails at once; k calls started after
+   it are in flight, then m new calls; the peer answers every request with token + 1 *)
+| C05FaultM (mode k m : Z) (first_ids_sorted : list Z) (pairs : list (Z * Z)).
 
 Fixpoint increasing (l : list Z) : bool :=
   match l with x :: ((y :: _) as t) => (x <? y) && increasing t | _ => true end.
+
+(* ---- the model's run for a TestC05Fault scenario: a call whose Write is held by the transport is, in the model,
+   a call that has allocated its id and not yet registered + written (pc PReg: the registration and the write are one
+   atomic rule); the explicit schedule below keeps the faulty calls there while the later calls allocate, fails their
+   write by context, then lets everybody write. What is compared is the projection both sides observe: the ids on
+   the wire and what every caller got. ---- *)
+Definition rule_idx (c j : nat) : label := LInt (2 + 15 * c + j)%nat.
+Definition reply_to (w : env) : env :=
+  mkEnv (eid w) (Some (MdOk 0)) None (match ebody w with Some b => Some (b + 1) | None => None end) (Some (MdOk 0)) false.
+
+Definition fault_labels (mode k m : nat) : list label :=
+  let faulty := match mode with 0%nat => 1%nat | 1%nat => 2%nat | _ => 1%nat end in
+  let starts (base : Z) (first n : nat) (write : bool) :=
+    flat_map (fun i => [LExt (ANewUnary (base + Z.of_nat i) false); rule_idx (first + i) 0] ++
+                       (if write then [rule_idx (first + i) 1] else [])) (seq 0 n) in
+  match mode with
+  | 2%nat =>
+      [LExt (ASetWriteFail true); LExt (ANewUnary 900 false); rule_idx 0 0; rule_idx 0 1; rule_idx 0 4; LExt (ASetWriteFail false)] ++
+      starts 100 1%nat k true ++ starts 200 (1 + k)%nat m true
+  | _ =>
+      starts 900 0%nat faulty false ++ starts 100 faulty k false ++
+      flat_map (fun i => [LExt (ACancel i); rule_idx i 1; rule_idx i 4]) (seq 0 faulty) ++
+      map (fun i => rule_idx (faulty + i) 1) (seq 0 k) ++
+      starts 200 (faulty + k)%nat m true
+  end.
+
+Definition fault_model (mode k m : nat) : option (list Z * list (Z * Z)) :=
+  match lrun init (fault_labels mode k m) with
+  | None => None
+  | Some s1 =>
+      let writes := flat_map (fun ev => match ev with EvWrite w => [w] | _ => [] end) (log s1) in
+      let s2 := fold_left react (map (fun w => ADeliver (reply_to w)) writes) s1 in
+      let faulty := match mode with 1%nat => 2%nat | _ => 1%nat end in
+      let res (c : nat) (k : call) : Z * Z :=
+        (k_payload k,
+         match flat_map (fun ev => match ev with EvUnaryRet c' r => if Nat.eqb c' c then [r] else [] | _ => [] end) (log s2) with
+         | UOk b :: _ => b
+         | UErr _ :: _ => -3
+         | [] => -2
+         end) in
+      Some (sort_by Z.leb (map eid writes),
+            map (fun c => match nth_error (calls s2) c with Some k => res c k | None => (0, -9) end) (seq faulty (k + m)))
+  end.
+
+Definition pairs_eqb (a b : list (Z * Z)) : bool := list_eqb (fun x y => (fst x =? fst y) && (snd x =? snd y)) a b.
 
 Definition check_c05 (c : c05case) : list nat :=
   match c with
   | C05Step cc => (if agrees cc then [] else [1%nat]) ++ reasons_in [2; 3; 4; 5]%nat cc
   | C05Free n ids pairs =>
       (if increasing ids && (Z.of_nat (length ids) =? n) && forallb (fun i => 0 <? i) ids then [] else [2%nat]) ++
+      (if forallb (fun p => snd p =? fst p + 1) pairs then [] else [9%nat])
+  | C05FaultM mode k m ids pairs =>
+      (* reason 1: the ids on the wire and what every caller got are those of the model's run *)
+      (match fault_model (Z.to_nat mode) (Z.to_nat k) (Z.to_nat m) with
+       | Some (mids, mpairs) => if list_eqb Z.eqb ids mids && pairs_eqb pairs mpairs then [] else [1%nat]
+       | None => [1%nat]
+       end) ++
+      (if increasing ids && (Z.of_nat (length ids) =? k + m) && forallb (fun i => 0 <? i) ids then [] else [2%nat]) ++
       (if forallb (fun p => snd p =? fst p + 1) pairs then [] else [9%nat])
   end.
 
